@@ -509,6 +509,12 @@ class BasicNextPatcherVisitor(BasicConstructVisitor):
     def visit_next_statement(self, next_statement):
         if self.for_stack and len(next_statement.var_list.exp_list) == 0:
             next_statement.var_list.exp_list.append(self.for_stack.pop())
+            return
+        # a NEXT that names its variables closes those loops (and any opened inside them)
+        for var in next_statement.var_list.exp_list:
+            names = [for_var.name() for for_var in self.for_stack]
+            if var.name() in names:
+                del self.for_stack[len(names) - 1 - names[::-1].index(var.name()) :]
 
 
 class BasicFunctionalExpressionPatcherVisitor(BasicConstructVisitor):
